@@ -312,6 +312,16 @@ def run_ro(spec, ctx):
             zj = z[j] if len(spec['zshape']) == 1 else z[j // 2, j % 2]
             q.eq('ldr%s.get(z[j])' % tag, lambda: y.get(zj),
                  np.where(mask[:, j] == 1, A[:, j], np.nan).reshape(ysh), shape=False)
+        if mask.any() and len(spec['zshape']) == 1 and nz >= 2:
+            # slices of the random variable in any order (reversed, permuted, strided)
+            q.eq('ldr%s.get(z[::-1])' % tag, lambda: y.get(z[::-1]), wantA[..., ::-1])
+            perm = [int(k_) for k_ in rng.permutation(nz)][:max(2, nz - 1)]
+            q.eq('ldr%s.get(z[perm])' % tag, lambda: y.get(z[perm]), wantA[..., perm])
+            q.eq('ldr%s.get(z[1:])' % tag, lambda: y.get(z[1:]), wantA[..., 1:])
+        elif mask.any() and len(spec['zshape']) == 2:
+            W2 = wantA.reshape(ysh + tuple(spec['zshape']))
+            q.eq('ldr%s.get(z[:, ::-1])' % tag, lambda: y.get(z[:, ::-1]), W2[..., :, ::-1])
+            q.eq('ldr%s.get(z[::-1])' % tag, lambda: y.get(z[::-1]), W2[..., ::-1, :])
         v = np.round(rng.uniform(-1, 1, tuple(spec['zshape'])), 2)
         q.eq('ldr%s(z.assign)' % tag, lambda: y(z.assign(v)), (A @ v.reshape(-1) + b).reshape(ysh))
         q.eq('ldr%s()' % tag, lambda: y(), b.reshape(ysh))
